@@ -82,7 +82,7 @@ func checkStopPng(p *Program, r *Report) {
 			if q > m {
 				m = q
 			}
-			L := e.beU32(last.Off.Sub(formInt(4)))
+			L := o.St.resolve(e.beU32(last.Off.Sub(formInt(4)))) // with what the path has pinned (an IHDR length required to be 13 …)
 			endOfLast := last.Off.Add(formInt(8)).Add(L)
 			if m != len(tags)-1 {
 				e1, why1 = false, fmt.Sprintf("a path reads %d more chunk header(s) after the dimensions and the profile were both extracted", len(tags)-1-m)
@@ -366,18 +366,53 @@ func checkSegmentConsumption(p *Program, r *Report) {
 	}
 	r.SawFn(shortFn(rm))
 	pr := runParser(p, rm, parserOpts{MaxForks: 1})
+	fill := false
 	if len(pr.Stuck) > 0 {
-		r.Violate("C18.E4", "jpeg readMarker consumption", p.Pos(pr.Stuck[0].Pos), "reading a marker is not a fixed-size read (it scans the stream): "+pr.Stuck[0].Why)
-		return
+		// a reader that accepts fill bytes (ITU T.81 B.1.1.2: any marker may be preceded by any number of
+		// 0xFF bytes) loops while the byte just read is 0xFF: followed for a few rounds, every extra
+		// byte consumed must be one the path has compared equal to 0xFF — then the read still ends at
+		// the marker and never skips over data
+		pr = runParser(p, rm, parserOpts{MaxForks: 4, MaxIter: 4})
+		fill = true
+		if len(pr.Stuck) > 0 {
+			r.Violate("C18.E4", "jpeg readMarker consumption", p.Pos(pr.Stuck[0].Pos), "reading a marker is not a fixed-size read (it scans the stream): "+pr.Stuck[0].Why)
+			return
+		}
 	}
 	good, why := len(pr.Succ) > 0, "no success path"
 	for _, o := range pr.Succ {
 		c, isC := pr.posOf(o).ConstInt()
-		if !isC || (c != 2 && c != 4) {
+		if !isC {
 			good, why = false, "a marker read consumes "+pr.posOf(o).Key()+" bytes; a marker is FF xx plus an optional 2-byte length"
+			continue
+		}
+		if c == 2 || c == 4 {
+			continue
+		}
+		if !fill {
+			good, why = false, "a marker read consumes "+pr.posOf(o).Key()+" bytes; a marker is FF xx plus an optional 2-byte length"
+			continue
+		}
+		// bytes 1 .. k of the read are fill bytes: in[j] == 0xFF on the path for every skipped position
+		eqs := byteEqConds(pr.E, o)
+		nFF := int64(0)
+		for j := int64(0); j < c; j++ {
+			if v, ok := eqs[fmt.Sprint(j)]; ok && v == 0xff {
+				nFF++
+			} else {
+				break
+			}
+		}
+		extra := c - nFF // what follows the run of FF bytes: the marker code, plus an optional length
+		if nFF < 1 || (extra != 1 && extra != 3) {
+			good, why = false, fmt.Sprintf("a marker read consumes %d bytes of which only the first %d are required to be 0xFF: bytes other than fill bytes are skipped while looking for a marker", c, nFF)
 		}
 	}
-	r.Check(good, "C18.E4", "jpeg readMarker consumption", p.FnPos(rm), fmt.Sprintf("all %d success paths consume exactly 2 bytes (stand-alone) or 4 bytes (with length)", len(pr.Succ)), why)
+	holds := fmt.Sprintf("all %d success paths consume exactly 2 bytes (stand-alone) or 4 bytes (with length)", len(pr.Succ))
+	if fill {
+		holds = fmt.Sprintf("all %d explored success paths consume a run of 0xFF bytes (prefix and fill bytes, each compared with 0xFF), the marker code and an optional 2-byte length — nothing else is skipped", len(pr.Succ))
+	}
+	r.Check(good, "C18.E4", "jpeg readMarker consumption", p.FnPos(rm), holds, why)
 }
 
 // condSaysNil reports whether the path assumes slice value v to be nil.
